@@ -20,10 +20,11 @@ RULE = ('cases: histories over {learn(snet, router, dnets, status), status(snet,
         'run on the operations the frames stand for.  nsap-traffic cases: emitted frames (application data handed to next-hop routers, Who-Is-Router), parked requests and cache after every step of histories of announcements (lists mixing remote and attached networks), application requests, routed through-traffic, withdrawals and renumberings, against the node model RouterNode.v.  direct: breadth-first over all DISTINCT reachable cache states to depth '
         '2 (quick) / 4 (thorough) with every op of the alphabet applied to each (= all histories of length <= 3 / 5, since the '
         'predicate depends on the state only), random histories of length 300, and next-hop MAC of frames emitted by the '
+        'NSAP (wave 6: systematic families sadr-competes / unnumbered adapter bound with net=None next to numbered ones / who-is-router, a quarter of the random message-driven histories on a node with an unnumbered adapter; relayed announcements, I-Am-Router claims and relayed Who-Is-Router frames are part of the emitted-traffic observation) '
         'NSAP after message-driven histories.  non-trivial = at least one operation changes the cache or is refused; '
         'distinct by operation list.')
 TRUSTED = ['model coq/theories/RouterCache.v written by hand after netservice.py:38-190 (RouterInfo, RouterInfoCache, as repaired '
-           'by the four fix: commits); tie = correspondence after every operation',
+           'by the four fix: commits; RouterNode.v after NetworkServiceElement.IAmRouterToNetwork / WhoIsRouterToNetwork and NetworkServiceAccessPoint.indication / process_npdu, fifth fix: commit); tie = correspondence after every operation',
            'path_info values are object references; the model stores the key (snet, address) instead - equal on coherent '
            'states, and the dump flags a path whose record is not the one filed in routers (so a divergence shows)']
 ASSUMPTIONS = ['Address objects used as dict keys hash/compare by value (pdu.Address.__hash__/__eq__, property C18)',
@@ -531,7 +532,18 @@ class Rig:
             elif n.npduNetMessage == 0 and not unicast and mac == 1:
                 w = WhoIsRouterToNetwork()
                 w.decode(n)
-                out.append(('whois', lan, w.wirtnNetwork))
+                if n.npduSADR is not None:
+                    # a question relayed for somebody else: carries the asker as SADR
+                    out.append(('whoisf', lan, w.wirtnNetwork, n.npduSADR.addrNet, n.npduSADR.addrAddr[0]))
+                else:
+                    out.append(('whois', lan, w.wirtnNetwork))
+            elif n.npduNetMessage == 1 and (unicast or mac == 1):
+                # I-Am-Router-To-Network put on the LAN by the node itself: a repeated announcement
+                # (broadcast, seen once at peer 1: destination 0) or an answer to one station
+                from bacpypes.npdu import IAmRouterToNetwork
+                w = IAmRouterToNetwork()
+                w.decode(n)
+                out.append(('iamr', lan, mac if unicast else 0, tuple(w.iartnNetworkList)))
         return out
 
     def pending(self):
@@ -649,11 +661,15 @@ def random_msgs(rng, n, three, outage):
     return msgs
 
 
-def run_msgs(msgs, learned_a, start_a=1, three=False, probe=None):
+def run_msgs(msgs, learned_a, start_a=1, three=False, probe=None, unnum=False):
     """drive the rig; return (observation list, the history of cache ops the frames stand for,
     the rig, A's number).  The op translation uses only the adapter numbers the harness itself
     tracks and NEVER the link states: what the node observes updates its knowledge whatever
     happens to the copies it relays.  probe(rig, hist, netA, down) is called after every step."""
+    if unnum:
+        # adapter A bound with net=None (number not known, filed under None in sap.adapters, asked first)
+        # next to the numbered adapter(s); it learns a number only if a Network-Number-Is arrives
+        learned_a, start_a = True, None
     rig = Rig(learned_a=learned_a, start_a=start_a, three=three)
     netA = start_a            # what adapter A believes
     nets = {'B': 2, 'C': 4}
@@ -759,29 +775,33 @@ def random_traffic(rng, n, three):
     for _ in range(n):
         r = rng.random()
         lan, mac = rng.choice(lans), rng.choice(AD)
-        if r < 0.30:
+        if r < 0.26:
             k = rng.choice([1, 1, 2, 2, 3, 4])
             msgs.append(('iam', lan, mac, tuple(rng.choice(DN + DN + [1, 2, 3, 4]) for _ in range(k))))
+        elif r < 0.34:
+            msgs.append(('whois', lan, mac, rng.choice(DN + DN + [1, 2, 3, 4])))
         elif r < 0.60:
             msgs.append(('req', rng.choice(DN)))
         elif r < 0.80:
             msgs.append(('fwd', lan, mac, rng.choice(DN + [1, 2, 3, 4]), rng.choice(DN)))
         elif r < 0.86:
             msgs.append(('routed', lan, mac, rng.choice(DN + [1, 2, 3, 4])))
-        elif r < 0.94:
+        elif r < 0.92:
             k = rng.random()
             msgs.append(('del', lan, mac if k < 0.7 else None, None if k < 0.3 else (rng.choice(DN),)))
+        elif r < 0.96:
+            msgs.append(('whois', lan, mac, rng.choice(DN + DN + [1, 2, 3, 4])))
         else:
             msgs.append(('nni', 'A', mac, rng.choice([1, 3, 3])))
     return msgs
 
 
-def case_traffic(msgs, learned_a, three=False):
+def case_traffic(msgs, learned_a, three=False, unnum=False):
     """emitted frames + parked requests + cache after every step against the node model RouterNode.v"""
-    desc = {'op': 'nsap', 'learned_a': learned_a, 'three': three, 'msgs': [list(m) for m in msgs]}
-    key = ('traffic', learned_a, three, tuple(msgs))
+    desc = {'op': 'nsap', 'learned_a': learned_a, 'three': three, 'unnum': unnum, 'msgs': [list(m) for m in msgs]}
+    key = ('traffic', learned_a, three, unnum, tuple(msgs))
     try:
-        out, hist, rig, _ = run_msgs(msgs, learned_a, three=three)
+        out, hist, rig, _ = run_msgs(msgs, learned_a, three=three, unnum=unnum)
     except RecursionError:
         raise
     except Exception as e:
@@ -797,6 +817,8 @@ def case_traffic(msgs, learned_a, three=False):
             steps.append('NIAm %s %s %s' % (_z(lan_net(m[1], netA)), _z(m[2]), _zl(m[3])))
         elif m[0] == 'fwd':
             steps.append('NFwd %s %s %s %s' % (_z(lan_net(m[1], netA)), _z(m[2]), _z(m[3]), _z(m[4])))
+        elif m[0] == 'whois':
+            steps.append('NWhoIs %s %s %s' % (_z(lan_net(m[1], netA)), _z(m[2]), _z(m[3])))
         elif m[0] == 'nni' and n > done:
             op = hist[done]
             steps.append('NRenum %s %s' % (_z(op[1]), _z(op[2])))
@@ -807,6 +829,10 @@ def case_traffic(msgs, learned_a, three=False):
         for e in em:
             if e[0] == 'send':
                 exp += [1, lan_net(e[1], netA), e[2], e[3], e[4], oz1(e[5])]
+            elif e[0] == 'iamr':
+                exp += [3, lan_net(e[1], netA), (e[2] + 1) if e[2] else 0, len(e[3])] + list(e[3])   # oz1 of the station, 0 = broadcast
+            elif e[0] == 'whoisf':
+                exp += [4, lan_net(e[1], netA), e[2], NONE if e[3] is None else e[3], e[4]]
             else:
                 exp += [2, lan_net(e[1], netA), e[2]]
         for dn in DN:
@@ -814,22 +840,24 @@ def case_traffic(msgs, learned_a, three=False):
             exp += ([len(tags)] + list(tags)) if tags else [0]
         exp += pack(d)
     ads = ([2] + ([4] if three else []) + [1]) if learned_a else ([1, 2] + ([4] if three else []))
+    if unnum:
+        ads = [NONE, 2] + ([4] if three else [])
     expr = 'observe_node %s %s %s (mkN empty %s []) [%s]' % (_zl(SNN), _zl(AD), _zl(DN), _zl(ads), '; '.join(steps))
     return Case('nsap-traffic', expr, exp, key=key, nontrivial=True, desc=desc)
 
 
-def case_nsap(msgs, learned_a, three=False):
+def case_nsap(msgs, learned_a, three=False, unnum=False):
     """expected = dump after each frame / link change; model = dump after the corresponding prefix of
     ops (which ignore the link states)"""
     kind = 'nsap-aged' if any(m[0] == 'iam2' for m in msgs) else 'nsap-outage' if any(m[0] == 'link' for m in msgs) else 'nsap-msgs'
-    desc = {'op': 'nsap', 'learned_a': learned_a, 'three': three, 'msgs': [list(m) for m in msgs]}
+    desc = {'op': 'nsap', 'learned_a': learned_a, 'three': three, 'unnum': unnum, 'msgs': [list(m) for m in msgs]}
     try:
-        out, hist, rig, _ = run_msgs(msgs, learned_a, three=three)
+        out, hist, rig, _ = run_msgs(msgs, learned_a, three=three, unnum=unnum)
     except RecursionError:
         raise
     except Exception as e:
         # the node raised while handling a frame: the model (which cannot) will disagree
-        return Case(kind, '[0]', [1, exc_code(e)], key=('nsap', learned_a, three, tuple(msgs)), nontrivial=True, desc=desc)
+        return Case(kind, '[0]', [1, exc_code(e)], key=('nsap', learned_a, three, unnum, tuple(msgs)), nontrivial=True, desc=desc)
     exp, frames, done = [], [], 0
     for n, d, extra, m, _em, _pend, _netA in out:
         if extra is not None:
@@ -843,7 +871,7 @@ def case_nsap(msgs, learned_a, three=False):
         exp += pack(d)
         done = n
     expr = 'observe_frames %s %s %s empty [%s]' % (_zl(SNN), _zl(AD), _zl(DN), '; '.join(frames))
-    return Case(kind, expr, exp, key=('nsap', learned_a, three, tuple(msgs)), nontrivial=len(hist) > 0, desc=desc)
+    return Case(kind, expr, exp, key=('nsap', learned_a, three, unnum, tuple(msgs)), nontrivial=len(hist) > 0, desc=desc)
 
 
 OUTAGE_WITNESSES = [
@@ -861,13 +889,89 @@ OUTAGE_WITNESSES = [
 ]
 
 
+def nsap_families():
+    """systematic message-level families (wave 6), used by the correspondence AND the direct predicate:
+    (three adapters?, learned A?, A unnumbered?, frames)
+    * sadr-competes: a path to network d is known through router r1 of an attached network (announced, or
+      revealed by the SADR of routed traffic), then routed traffic with SADR network d arrives through ANOTHER
+      router r2 of the same attached network (to the node itself or to be forwarded): the newest observation
+      wins, and a request sent afterwards goes to r2; controls: the same router again, a router of the other LAN
+    * unnumbered: adapter A has no network number yet (bound with net=None, so its knowledge is filed under
+      None and it is asked FIRST) next to numbered adapters: what is known through B / C must not be found
+      from A and the other way round; requests, through-traffic, Who-Is-Router, withdrawals, and finally
+      A learning its number
+    * whois: Who-Is-Router-To-Network for a network known on the asking LAN / another LAN / nowhere / attached /
+      just withdrawn: the node claims it exactly when its knowledge names a next hop on another adapter"""
+    out = []
+    configs = [(False, False, False), (True, True, False), (False, True, True), (True, False, True)]
+    d = 10
+    for three, learned, unnum in configs:
+        for lan in 'AB':
+            other = 'B' if lan == 'A' else 'A'
+            for r1, r2 in ((1, 2), (2, 3), (3, 1)):
+                firsts = [('iam', lan, r1, (d, 11)), ('routed', lan, r1, d), ('fwd', lan, r1, d, 12)]
+                seconds = [('routed', lan, r2, d), ('fwd', lan, r2, d, 12), ('fwd', lan, r2, d, 11)]
+                for f in firsts:
+                    for g in seconds:
+                        out.append((three, learned, unnum, [f, g, ('req', d), ('req', 11)]))
+                # controls: same router again; a router with the same MAC on the other LAN
+                out.append((three, learned, unnum, [firsts[0], ('routed', lan, r1, d), ('req', d)]))
+                out.append((three, learned, unnum, [firsts[1], ('routed', other, r1, d), ('req', d), ('fwd', other, r2, 13, d)]))
+    for three in (False, True):
+        for r in AD:
+            r2 = r % 3 + 1
+            out += [
+                (three, False, True, [('iam', 'B', r, (10,)), ('req', 10), ('whois', 'A', r2, 10), ('whois', 'B', r2, 10)]),
+                (three, False, True, [('iam', 'A', r, (10,)), ('req', 10), ('iam', 'B', r2, (11,)), ('req', 11),
+                                      ('fwd', 'A', 1, 12, 11), ('fwd', 'B', 1, 13, 10)]),
+                (three, False, True, [('iam', 'B', r, (10, 11)), ('iam', 'A', r, (11, 12)), ('req', 10), ('req', 11), ('req', 12),
+                                      ('del', 'A', r, None), ('req', 11), ('nni', 'A', 1, 3), ('req', 10), ('req', 12)]),
+                (three, False, True, [('req', 10), ('iam', 'B', r, (10,)), ('whois', 'A', 1, 10), ('del', 'B', r, None),
+                                      ('whois', 'A', 1, 10), ('req', 10)]),
+                (three, False, True, [('routed', 'B', r, 10), ('routed', 'A', r, 11), ('del', 'A', None, (10,)), ('req', 10),
+                                      ('req', 11), ('del', 'B', None, (10, 11)), ('req', 10)]),
+                (three, False, True, [('iam', 'A', r, (10,)), ('nni', 'A', r2, 1), ('req', 10), ('iam', 'A', r2, (10,)), ('req', 10),
+                                      ('nni', 'A', r2, 3), ('req', 10)]),
+            ]
+    for three, learned, unnum in configs:
+        for l1 in ('AB' + ('C' if three else '')):
+            for l2 in ('AB' + ('C' if three else '')):
+                out.append((three, learned, unnum, [('whois', l2, 2, 10), ('iam', l1, 1, (10, 12)), ('whois', l2, 2, 10),
+                                                    ('whois', l2, 3, 12), ('whois', l2, 3, 11), ('whois', l2, 1, 2),
+                                                    ('del', l1, None, (10,)), ('whois', l2, 2, 10), ('whois', l2, 2, 12)]))
+        # known on two adapters at once: the first in look-up order decides
+        out.append((three, learned, unnum, [('iam', 'A', 1, (10,)), ('iam', 'B', 2, (10,)), ('whois', 'A', 3, 10), ('whois', 'B', 3, 10)]))
+    return out
+
+
+def cache_families():
+    """knowledge filed under the not-yet-learned network (None) next to a numbered one: look-ups, withdrawals
+    and announcements on one must not see or touch the other; then the unnumbered network learns its number"""
+    out = []
+    for a in AD:
+        b = a % 3 + 1
+        for d1 in ((10,), (10, 11)):
+            for d2 in ((10,), (11, 12)):
+                for first in ((NONE, 2), (2, NONE)):
+                    for last in (('F', NONE, a, None), ('F', 2, b, None), ('F', NONE, None, (10,)), ('F', 2, None, (10, 11)),
+                                 ('F', NONE, b, (10,)), ('F', 2, a, (10,)), ('R', NONE, 1), ('R', NONE, 2), ('R', 2, NONE),
+                                 ('L', NONE, b, (10, 12), 0), ('L', 2, a, (10, 12), 0), ('S', NONE, a, 2)):
+                        out.append(('unnumbered-net', [('L', first[0], a if first[0] == NONE else b, d1 if first[0] == NONE else d2, 0),
+                                                       ('L', first[1], a if first[1] == NONE else b, d1 if first[1] == NONE else d2, 0),
+                                                       last]))
+    return out
+
+
 def cases(rng, tier):
     big = tier == 'thorough'
     out = []
     for h in WITNESSES:
         out.append(case_hist(h, 'witness'))
-    for kind, h in families():
+    for kind, h in families() + cache_families():
         out.append(case_hist(h, kind))
+    for three, learned, unnum, msgs in nsap_families():
+        out.append(case_nsap(msgs, learned_a=learned, three=three, unnum=unnum))
+        out.append(case_traffic(msgs, learned_a=learned, three=three, unnum=unnum))
     alpha = alphabet(2)
     for o in alpha:
         out.append(case_hist([o], 'exh-len1'))
@@ -900,7 +1004,7 @@ def cases(rng, tier):
         out.append(case_hist([random_op(rng, SNW, ADW, DNW) for _ in range(300)], 'rand-300-wide', wide=True))
     for _ in range(1500 if big else 200):
         msgs = [random_msg(rng) for _ in range(rng.choice([3, 6, 10, 20]))]
-        out.append(case_nsap(msgs, learned_a=rng.random() < 0.6))
+        out.append(case_nsap(msgs, learned_a=rng.random() < 0.6, unnum=rng.random() < 0.25))
     # outages: the link under one or more adapters of a 2- or 3-port node goes down and comes back while
     # announcements / routed traffic / Network-Number-Is keep arriving
     for three, learned, msgs in OUTAGE_WITNESSES + AGED_WITNESSES + TRAFFIC_WITNESSES:
@@ -910,7 +1014,8 @@ def cases(rng, tier):
             out.append(case_traffic(msgs, learned_a=learned, three=three))
     for _ in range(2000 if big else 400):
         three = rng.random() < 0.5
-        out.append(case_traffic(random_traffic(rng, rng.choice([3, 6, 10, 16]), three), learned_a=rng.random() < 0.5, three=three))
+        out.append(case_traffic(random_traffic(rng, rng.choice([3, 6, 10, 16]), three), learned_a=rng.random() < 0.5, three=three,
+                                unnum=rng.random() < 0.25))
     for _ in range(200 if big else 40):
         # random histories in an aged process: pairs of competing same-instant announcements across the boundary
         three = rng.random() < 0.5
@@ -1155,6 +1260,25 @@ def nsap_probe(failures, ctx):
                 if not ok:
                     return fail('nsap-forward-not-following-knowledge', dnet=d, snet=snet, arrived_on=lan, sent_to=sends,
                                 want=sorted(want_of(d)), who_is_router=[list(e) for e in asked], at=step)
+            elif m[0] == 'whois' and len(attached) > 1:
+                # Who-Is-Router-To-Network d from station mac on lan: the node may claim d (I-Am-Router-To-Network
+                # [d] to the asker, on that LAN) only when d is attached elsewhere or its knowledge names a next
+                # hop for d on another LAN; it must claim when the only next hops known are on other LANs, and must
+                # not when nothing is known or everything known is on the asking LAN
+                lan, mac, d = m[1], m[2], m[3]
+                claims = [e for e in em if e[0] == 'iamr' and d in e[3]]
+                good = [e for e in claims if e[1] == lan and e[2] == mac and tuple(e[3]) == (d,)]
+                nets_now = dict(attached)
+                if d in nets_now:
+                    must, may = nets_now[d] != lan, nets_now[d] != lan
+                else:
+                    lans_known = set(l for l, _ in want_of(d))
+                    must = bool(lans_known) and lan not in lans_known
+                    may = bool(lans_known - {lan})
+                ok = (len(claims) == len(good) <= 1) and (good or not must) and (may or not claims)
+                if not ok:
+                    return fail('nsap-whois-not-following-knowledge', dnet=d, asked_on=lan, asker=mac, claims=[list(map(str, e)) for e in claims],
+                                known_on=sorted(l for l, _ in want_of(d)), at=step)
         for d in DN:
             try:
                 hops = rig.next_hop(d)
@@ -1189,20 +1313,22 @@ def direct_nsap(rng, n_hist, failures, stats):
     """message-driven histories on 2- and 3-adapter nodes, with and without link outages, judged by
     nsap_probe after every step"""
     evals = steps = outages = raised = 0
-    plan = [(three, True, (learned, msgs)) for three, learned, msgs in TRAFFIC_WITNESSES + AGED_WITNESSES + OUTAGE_WITNESSES]
+    plan = [(three, True, (learned, False, msgs)) for three, learned, msgs in TRAFFIC_WITNESSES + AGED_WITNESSES + OUTAGE_WITNESSES]
+    plan += [(three, True, (learned, unnum, msgs)) for three, learned, unnum, msgs in nsap_families()]
     plan += [(False, False, None)] * n_hist + [(None, True, None)] * n_hist
     for three, outage, fixed in plan:
         if fixed:
-            learned, msgs = fixed
+            learned, unnum, msgs = fixed
         else:
             learned = rng.random() < 0.6
+            unnum = rng.random() < 0.25
             if three is None:
                 three = rng.random() < 0.5
             msgs = random_msgs(rng, rng.choice([2, 4, 8, 16]), three, outage) if outage else \
                 [random_msg(rng) for _ in range(rng.choice([2, 4, 8, 16]))]
-        ctx = {'learned_a': learned, 'three': three, 'msgs': [list(m) for m in msgs]}
+        ctx = {'learned_a': learned, 'three': three, 'unnum': unnum, 'msgs': [list(m) for m in msgs]}
         try:
-            out, hist, rig, netA = run_msgs(msgs, learned, three=three, probe=nsap_probe(failures, ctx))
+            out, hist, rig, netA = run_msgs(msgs, learned, three=three, probe=nsap_probe(failures, ctx), unnum=unnum)
         except RecursionError:
             raise
         except Exception as e:
@@ -1224,7 +1350,7 @@ def direct(rng, tier, focus=()):
     big = tier == 'thorough'
     n = 0
     # 1. witnesses of the repaired defects
-    for h in WITNESSES + [h for _, h in families()]:
+    for h in WITNESSES + [h for _, h in families() + cache_families()]:
         c = new_cache()
         for i, op in enumerate(h):
             f = check_step(c, op, SN, DN)
@@ -1337,7 +1463,7 @@ def replay(payload):
         msgs = [tuple(tuple(x) if isinstance(x, list) else x for x in m) for m in f['msgs']]
         fl = []
         out, hist, rig, netA = run_msgs(msgs, f.get('learned_a', False), three=f.get('three', False),
-                                        probe=nsap_probe(fl, {}))
+                                        probe=nsap_probe(fl, {}), unnum=f.get('unnum', False))
         print('ops the frames stand for (up to the failing step):', hist)
         print('verdict:', fl or 'ok')
         print('cache lookups:', knowledge(rig.cache, SNN, DN), 'coherent:', coherent(rig.cache) or 'yes')
